@@ -8,6 +8,7 @@ mod grammar;
 mod sites;
 mod util;
 mod tables;
+mod builders;
 
 use std::path::PathBuf;
 
@@ -27,4 +28,7 @@ fn main() {
     util::write_if_changed(&out.join("PanicSites.v"), &s);
     let t = tables::translate(&repo);
     util::write_if_changed(&out.join("Tables.v"), &t);
+    let b = builders::translate(&repo);
+    util::write_if_changed(&out.join("BuilderTables.v"), &b.coq);
+    util::write_if_changed(&out.join("gen_chains.rs"), &b.rust);
 }
